@@ -1835,9 +1835,25 @@ pub fn c03_scenarios(tier: &str) -> Vec<crate::esched::Scenario> {
 /// model-checking keys (states / transitions / traces) from these runs alone.
 fn run_sched(rep: &mut Report, prop: &str, scs: &[crate::esched::Scenario], bound: usize, max_exec: u64, own_counts: bool) {
     let tasks: Vec<Value> = scs.iter().map(|s| json!({"scenario": s.to_json(), "bound": bound, "max_exec": max_exec})).collect();
+    // scenarios are worked through in rounds; no new round is started after the wall-clock budget
+    // (what was not started is reported as a cap, everything started is finished)
+    let wall_budget: f64 = std::env::var("TCSS_SCHED_WALL_S").ok().and_then(|s| s.parse().ok()).unwrap_or(1800.0);
     let mut pool = crate::pool::Pool::spawn(threads(), "sched", &json!({"seed": seed()}));
-    let results = pool.map(&tasks);
+    let mut results = vec![];
+    let t_start = std::time::Instant::now();
+    let round = (threads() * 4).max(16);
+    let mut done = 0usize;
+    while done < tasks.len() && t_start.elapsed().as_secs_f64() <= wall_budget {
+        let end = (done + round).min(tasks.len());
+        results.extend(pool.map(&tasks[done..end]));
+        done = end;
+    }
     drop(pool);
+    if done < tasks.len() {
+        rep.cov("sched_cap", json!(format!("wall-clock budget of {wall_budget} s used up after {done} of {} scenarios; the remaining scenarios were not started", tasks.len())));
+        rep.cov("exhaustive", json!(false));
+    }
+    let scs = &scs[..done];
     let mut by_pre = vec![0u64; bound + 1];
     let mut executions = 0u64;
     let mut capped = 0u64;
@@ -1894,7 +1910,7 @@ fn run_sched(rep: &mut Report, prop: &str, scs: &[crate::esched::Scenario], boun
         rep.cov("transitions", json!(points));
         rep.cov("traces_validated_against_impl", json!(executions));
         rep.cov("samples", json!(samples));
-        rep.cov("exhaustive", json!(capped == 0));
+        rep.cov("exhaustive", json!(capped == 0 && !rep.coverage.contains_key("sched_cap")));
     } else {
         rep.add_count("traces_validated_against_impl", executions);
         rep.cov("sched_samples", json!(samples));
